@@ -277,31 +277,71 @@ def check_modified_small_cases(prog, ctx, cw):
     tm = Terms(cw.node, max_depth=0)
     c = cfg_of(cw)
     pts, a, b, flag = cw.params[0], cw.params[1], cw.params[2], cw.params[3]
+    half = Poly.const(Fraction(1, 2))
+    # where the small cases are written: in compute_weights itself, or in a helper of the same class that compute_weights calls under
+    # the modified-basis flag with the grid and the interval ends handed on (roles follow the arguments)
+    places = [(cw, pts, a, b, True)]
+    if cw.cls is not None:
+        for call in R.calls_in(cw.node):
+            f_ = call.func
+            hname = f_.attr if isinstance(f_, ast.Attribute) else None
+            h = cw.cls.methods.get(hname) if hname else None
+            if h is None or h is cw:
+                continue
+            hp = [p_ for p_ in h.params if p_ != h.self_name]
+            roles = {}
+            for p_, arg in zip(hp, call.args):
+                if isinstance(arg, ast.Name) and arg.id in (pts, a, b):
+                    roles[arg.id] = p_
+            if set(roles) != {pts, a, b}:
+                continue
+            par = getattr(call, "_parent", None)
+            flagged = False
+            while par is not None and not isinstance(par, ast.stmt):
+                if isinstance(par, ast.BoolOp) and isinstance(par.op, ast.And) and any(isinstance(v, ast.Name) and v.id == flag for v in par.values):
+                    flagged = True
+                par = getattr(par, "_parent", None)
+            cn = c.node_containing(call)
+            if cn is not None and ("n", flag) in [gd for (gd, gn) in R.dominating_guards(cw, cn, tm)]:
+                flagged = True
+            if flagged:
+                places.append((h, roles[pts], roles[a], roles[b], False))
+                ctx.touch(h)
+    cases = {}
+    for (fn_, pts_, a_, b_, need_flag) in places:
+        tmf = Terms(fn_.node, max_depth=0)
+        cf_ = cfg_of(fn_)
+        ren = {("n", pts_): ("n", pts), ("n", a_): ("n", a), ("n", b_): ("n", b)}
+
+        def rn(t):
+            if t in ren:
+                return ren[t]
+            if isinstance(t, tuple):
+                return tuple(rn(x) for x in t)
+            return t
+        for n in cf_.nodes:
+            if n.kind == "stmt" and isinstance(n.ast, ast.Assign) and isinstance(n.ast.targets[0], ast.Subscript) and n.idx in cf_.reachable():
+                guards = [rn(R.resolve_locals(fn_, gd, gn, tmf)) for (gd, gn) in R.dominating_guards(fn_, n, tmf) if gn.kind == "test"]   # `n = len(grid)` looked through
+                size = None
+                for gd in guards:
+                    if gd[0] == "cmp" and gd[1] == "Eq" and ("call", ("n", "len"), (("n", pts),), ()) in (gd[2], gd[3]):
+                        other = gd[3] if gd[2][0] == "call" else gd[2]
+                        if other[0] == "c":
+                            size = int(other[1])
+                if size is not None and (not need_flag or ("n", flag) in guards):
+                    idx = tmf.term(n.ast.targets[0].slice)
+                    if idx[0] == "c" and int(idx[1]) not in cases.get(size, {}):
+                        cases.setdefault(size, {})[int(idx[1])] = (n, rn(tmf.term(n.ast.value)), cf_)
     A, B = Poly.atom(("n", a)), Poly.atom(("n", b))
     g = lambda k: Poly.atom(("s", ("n", pts), ("c", str(k))))
-    half = Poly.const(Fraction(1, 2))
-    cases = {}
-    for n in c.nodes:
-        if n.kind == "stmt" and isinstance(n.ast, ast.Assign) and isinstance(n.ast.targets[0], ast.Subscript) and n.idx in c.reachable():
-            guards = [R.resolve_locals(cw, gd, gn, tm) for (gd, gn) in R.dominating_guards(cw, n, tm) if gn.kind == "test"]   # `n = len(grid)` looked through
-            size = None
-            for gd in guards:
-                if gd[0] == "cmp" and gd[1] == "Eq" and ("call", ("n", "len"), (("n", pts),), ()) in (gd[2], gd[3]):
-                    other = gd[3] if gd[2][0] == "call" else gd[2]
-                    if other[0] == "c":
-                        size = int(other[1])
-            if size is not None and ("n", flag) in guards:
-                idx = tm.term(n.ast.targets[0].slice)
-                if idx[0] == "c":
-                    cases.setdefault(size, {})[int(idx[1])] = (n, tm.term(n.ast.value))
     ok3 = 3 in cases and 1 in cases[3] and poly_of_term(cases[3][1][1]) == B - A
     ctx.check(ok3, "C09.D4", R.key_of(cw, "modified-3-points"), cw.loc(cases[3][1][0].ast) if 3 in cases and 1 in cases[3] else cw.loc(),
               "3 points, modified basis: the inner weight is b - a", "the 3-point modified-basis weight is not b - a")
     ok4 = False
     why = "the 4-point modified-basis case was not found"
     if 4 in cases and 1 in cases[4] and 2 in cases[4]:
-        w2n, w2 = cases[4][2]
-        w1n, w1 = cases[4][1]
+        w2n, w2, c = cases[4][2]
+        w1n, w1, _c1 = cases[4][1]
         # w1 refers to weights[2]: substitute
         wname = w1n.ast.targets[0].value.id
         W2 = Poly.atom(("s", ("n", wname), ("c", "2")))
